@@ -334,6 +334,13 @@ impl World {
                 let now = NOW.fetch_add(d, Ordering::SeqCst) + d;
                 emit(json!({"e": "Advance", "now": now}));
             }
+            "arm" => {
+                let a = cmd["a"].as_str().unwrap_or("").to_string();
+                match self.actors.get(&a) {
+                    Some(slot) => *slot.sh.run_now.lock().unwrap_or_else(|e| e.into_inner()) = cmd["out"].as_str().map(|s| s.to_string()),
+                    None => self.inappl("arm: no actor"),
+                }
+            }
             "task" => {
                 let m = cmd["m"].as_u64().unwrap_or(0);
                 let out = cmd["out"].as_str().unwrap_or("ok").to_string();
